@@ -361,12 +361,32 @@ def _lookup_unit_symbol(symbol_str, unit_symbol_lut):
     )
 
 
+def _intern_dimensions(dims):
+    """Replace dimension symbols that merely *equal* the library's base
+    dimensions (as produced by unpickling or copying) with the singletons
+    themselves: the angle, temperature and logarithmic guards test identity.
+    """
+    free_symbols = getattr(dims, "free_symbols", None)
+    if not free_symbols:
+        return dims
+    swaps = {
+        sym: base_dim
+        for sym in free_symbols
+        for base_dim in unyt_dims.base_dimensions
+        if sym == base_dim and sym is not base_dim
+    }
+    if swaps:
+        dims = dims.xreplace(swaps)
+    return dims
+
+
 def _correct_old_unit_registry(data, sympify=False):
     lut = {}
     for k, v in data.items():
         unsan_v = list(v)
         if sympify:
             unsan_v[1] = cached_sympify(v[1])
+        unsan_v[1] = _intern_dimensions(unsan_v[1])
         if len(unsan_v) == 4:
             # old unit registry so we need to add SI-prefixability to the registry
             # entry, correct the base_value to be in MKS units, and swap dimensions to
